@@ -5,6 +5,7 @@ import (
 	"go/token"
 	"go/types"
 	"sort"
+	"strconv"
 	"strings"
 
 	"golang.org/x/tools/go/ssa"
@@ -349,6 +350,15 @@ func (s *State) top() *frame { return s.frames[len(s.frames)-1] }
 // Mem returns the current symbolic contents of addr (nil if unknown).
 func (s *State) MemAt(addr *Term) *Term { return s.load(addr, "q") }
 
+// DynType: the concrete type term t had when it was converted to an interface on the analysed paths (nil if it
+// never was).
+func (s *State) DynType(t *Term) types.Type {
+	if s == nil || s.dyn == nil || t == nil {
+		return nil
+	}
+	return s.dyn[t.Key()]
+}
+
 // addrParent: faddr/iaddr -> base
 func addrParent(a *Term) *Term {
 	if a.Op == "faddr" || a.Op == "iaddr" {
@@ -396,19 +406,19 @@ func (s *State) load(addr *Term, ver string) *Term {
 		// overlay later sub-entries (composite literal construction)
 		var subs []*memEntry
 		for _, se := range s.mem {
-			if se.seq > e.seq && addrParent(se.addr) != nil && addrParent(se.addr).Key() == k && se.addr.Op == "faddr" {
+			if se.seq > e.seq && addrParent(se.addr) != nil && addrParent(se.addr).Key() == k && subName(se.addr) != "" {
 				subs = append(subs, se)
 			}
 		}
 		if len(subs) == 0 {
 			return e.val
 		}
-		sort.Slice(subs, func(i, j int) bool { return subs[i].addr.Aux < subs[j].addr.Aux })
+		sort.Slice(subs, func(i, j int) bool { return subName(subs[i].addr) < subName(subs[j].addr) })
 		var kvs []*Term
 		for _, se := range subs {
-			// nested literal fields
+			// nested literal fields / elements
 			v := s.load(se.addr, ver)
-			kvs = append(kvs, &Term{Op: "kv", Aux: se.addr.Aux, Args: []*Term{v}})
+			kvs = append(kvs, &Term{Op: "kv", Aux: subName(se.addr), Args: []*Term{v}})
 		}
 		return overlay(e.val, kvs)
 	}
@@ -425,7 +435,7 @@ func (s *State) load(addr *Term, ver string) *Term {
 			if addr.Op == "faddr" {
 				return fieldOf(pv, addr.Aux)
 			}
-			return &Term{Op: "index", Args: []*Term{pv, addr.Args[1]}}
+			return indexOf(pv, addr.Args[1])
 		}
 	}
 	if len(subs) > 0 {
@@ -452,7 +462,7 @@ func (s *State) loadParent(p *Term) *Term {
 			if p.Op == "faddr" {
 				return fieldOf(v, p.Aux)
 			}
-			return &Term{Op: "index", Args: []*Term{v, p.Args[1]}}
+			return indexOf(v, p.Args[1])
 		}
 	}
 	return nil
@@ -492,6 +502,37 @@ func overlay(base *Term, kvs []*Term) *Term {
 		return out
 	}
 	return &Term{Op: "lit", Args: append([]*Term{{Op: "base", Args: []*Term{base}}}, kvs...)}
+}
+
+// subName: the key under which a sub-cell of a composite value is recorded in a literal term - the field name,
+// or "#k" for the element with constant index k ("" when the sub-address has no such name).
+func subName(a *Term) string {
+	switch a.Op {
+	case "faddr":
+		return a.Aux
+	case "iaddr":
+		if k, ok := a.Args[1].IntConst(); ok {
+			return "#" + strconv.FormatInt(k, 10)
+		}
+	}
+	return ""
+}
+
+// indexOf: element idx of the array value v (resolved when v is a literal built on this path and idx a constant).
+func indexOf(v, idx *Term) *Term {
+	if k, ok := idx.IntConst(); ok {
+		name := "#" + strconv.FormatInt(k, 10)
+		switch {
+		case v.Op == "lit":
+			r := fieldOf(v, name)
+			if !(r.Op == "field" && r.Aux == name) {
+				return r
+			}
+		case v.Op == "const" && strings.HasPrefix(v.Aux, "zero"):
+			return &Term{Op: "const", Aux: "zero:." + name}
+		}
+	}
+	return &Term{Op: "index", Args: []*Term{v, idx}}
 }
 
 func fieldOf(v *Term, name string) *Term {
@@ -1862,7 +1903,13 @@ func (ex *explorer) simple(st *State, in ssa.Instruction) {
 		x := ex.eval(st, in.X)
 		switch in.Op {
 		case token.MUL:
-			f.env[in] = st.load(x, "0")
+			v := st.load(x, "0")
+			if v.Op == "load" && len(v.Args) == 1 && v.Args[0] == x {
+				if c := loadConstGlobal(x, f.ty(in.Type()), ex.opt); c != nil {
+					v = c
+				}
+			}
+			f.env[in] = v
 		case token.ARROW:
 			r := &Term{Op: "recv", Aux: ex.instrID(in) + f.id, Args: []*Term{x}}
 			ex.emit(st, Step{Kind: KRecv, Instr: in, A: []*Term{x}, R: r, CommaOk: in.CommaOk})
@@ -1899,7 +1946,13 @@ func (ex *explorer) simple(st *State, in ssa.Instruction) {
 	case *ssa.Index:
 		f.env[in] = &Term{Op: "index", Args: []*Term{ex.eval(st, in.X), ex.eval(st, in.Index)}}
 	case *ssa.Lookup:
-		f.env[in] = &Term{Op: "lookup", Args: []*Term{ex.eval(st, in.X), ex.eval(st, in.Index)}}
+		lk := &Term{Op: "lookup", Args: []*Term{ex.eval(st, in.X), ex.eval(st, in.Index)}}
+		if in.CommaOk {
+			// v, ok := m[k]: the value component is the plain lookup
+			f.env[in] = &Term{Op: "tuple", Args: []*Term{lk, {Op: "lookupok", Args: lk.Args}}}
+		} else {
+			f.env[in] = lk
+		}
 	case *ssa.Slice:
 		opt := func(v ssa.Value) *Term {
 			if v == nil {
